@@ -131,9 +131,23 @@ func (cx *Ctx) rejectSubjects(ch *Chain) []*ssa.Function {
 	var out []*ssa.Function
 	for _, s := range ch.Steps {
 		for _, f := range s.Role["logic"] {
+			// helpers reached only through a dedicated function are that function's business: do not descend into them
 			sc := map[*ssa.Function]bool{}
+			pre := map[*ssa.Function]bool{}
+			for k := range rejectDedicated {
+				if d := w.Func(k); d != nil && d != f {
+					sc[d], pre[d] = true, true
+				}
+			}
 			w.refClosure(f, sc)
 			for g := range sc {
+				if pre[g] {
+					if !seen[g] {
+						seen[g] = true
+						out = append(out, g)
+					}
+					continue
+				}
 				if seen[g] || g.Blocks == nil || g.Pkg == nil || shortPkg(g.Pkg.Pkg.Path()) != "provider" {
 					continue
 				}
